@@ -137,7 +137,7 @@ def judge(case, ctx, dataset, sch, first):
 
 
 def reach(counters, tier, info):
-    k = 1 if tier == "quick" else 25
+    k = 0.5 if tier == "quick" else 25
     out = []
     for name, key, need in [("accepted cases judged", "accepted", 1000 * k), ("refusals expected", "refusals_expected", 300 * k),
                             ("look-alike refusals expected", "lookalike_refusals_expected", 100 * k),
